@@ -951,8 +951,8 @@ def c05_plants(tmpl, g, r, kinds=None):
                 d = info_dict(info)
                 if d["where"] == "global":
                     continue
-                if d.get("pure") == "1" and any(":=" in l for l in s):
-                    continue
+                if d.get("pure") == "1" and any(":=" in l or "zcf" in l or "zcg" in l for l in s):
+                    continue        # mutable definitions / calls of impure local functions are rejected in pure functions anyway
                 out.append((k, "S", i, info, s))
         if k in ("break-outside", "continue-outside"):
             word = k.split("-")[0]
